@@ -2,6 +2,7 @@ SPECIFICATION Spec
 CONSTANTS K = 5
   MaxDepth = 2
   MaxDefer = 3
+  Alphabet = {"d","i","e","x","f","F","b","c","r","p","w","k","l","g"}
 CONSTRAINT Collect
 POSTCONDITION Post
 CHECK_DEADLOCK FALSE
